@@ -15,6 +15,7 @@ type opage struct {
 	width, height     float64 // content box
 	mt, mr, mb, ml    float64
 	pt, pr, pb, pl    float64   // padding
+	bt, br, bb, bl    float64   // border widths
 	texts             []string  // text boxes of the flow, document order
 	ys                []float64 // their top edge relative to the top of the page content box
 	bottoms           []float64
@@ -53,6 +54,7 @@ func observe(pages []*bo.PageBox) []opage {
 		p.width, p.height = float64(pg.Width.V()), float64(pg.Height.V())
 		p.mt, p.mr, p.mb, p.ml = float64(pg.MarginTop.V()), float64(pg.MarginRight.V()), float64(pg.MarginBottom.V()), float64(pg.MarginLeft.V())
 		p.pt, p.pr, p.pb, p.pl = float64(pg.PaddingTop.V()), float64(pg.PaddingRight.V()), float64(pg.PaddingBottom.V()), float64(pg.PaddingLeft.V())
+		p.bt, p.br, p.bb, p.bl = float64(pg.BorderTopWidth.V()), float64(pg.BorderRightWidth.V()), float64(pg.BorderBottomWidth.V()), float64(pg.BorderLeftWidth.V())
 		p.margin = map[string]string{}
 		top := float64(pg.ContentBoxY())
 		for _, c := range pg.Children {
@@ -67,6 +69,15 @@ func observe(pages []*bo.PageBox) []opage {
 		}
 	}
 	return out
+}
+
+// marginBoxW/H: the size of the page's margin box (what must coincide with the sheet).
+func (p *opage) marginBoxW() float64 {
+	return p.ml + p.bl + p.pl + p.width + p.pr + p.br + p.mr
+}
+
+func (p *opage) marginBoxH() float64 {
+	return p.mt + p.bt + p.pt + p.height + p.pb + p.bb + p.mb
 }
 
 func (p *opage) typeString() string {
